@@ -5,6 +5,7 @@ package core
 import (
 	"math"
 	"reflect"
+	"time"
 
 	"github.com/mattn/anko/env"
 	zz "github.com/mattn/anko/zzverif"
@@ -174,15 +175,27 @@ func ZZ_C19_keys() {
 
 type zzStruct struct{ A int64 }
 
+type zzCelsius float64
+type zzName string
+type zzFlag bool
+type zzCount uint16
+type zzErr struct{}
+
+func (zzErr) Error() string { return "e" }
+
 func ZZ_C19_typeOf_kindOf() {
 	typeOf := zzBuiltin("typeOf").(func(interface{}) string)
 	kindOf := zzBuiltin("kindOf").(func(interface{}) string)
 	vals := []interface{}{nil, true, int64(1), 1.5, "s", []interface{}{}, map[interface{}]interface{}{}, int32(1), uint8(1), float32(1),
-		[]int64{}, map[string]int64{}, new(int64), zzStruct{}, &zzStruct{}, make(chan int64), func() {}, []string{}, [][]interface{}{}}
+		[]int64{}, map[string]int64{}, new(int64), zzStruct{}, &zzStruct{}, make(chan int64), func() {}, []string{}, [][]interface{}{},
+		// defined types over basic kinds: the type name is theirs, the kind their underlying one
+		time.Duration(5), zzCelsius(1.5), zzName("n"), zzFlag(true), zzCount(3), []zzCount{1}, map[zzName]zzCount{}, [2]int64{}, error(zzErr{})}
 	types := []string{"nil", "bool", "int64", "float64", "string", "[]interface {}", "map[interface {}]interface {}", "int32", "uint8", "float32",
-		"[]int64", "map[string]int64", "*int64", "core.zzStruct", "*core.zzStruct", "chan int64", "func()", "[]string", "[][]interface {}"}
+		"[]int64", "map[string]int64", "*int64", "core.zzStruct", "*core.zzStruct", "chan int64", "func()", "[]string", "[][]interface {}",
+		"time.Duration", "core.zzCelsius", "core.zzName", "core.zzFlag", "core.zzCount", "[]core.zzCount", "map[core.zzName]core.zzCount", "[2]int64", "core.zzErr"}
 	kinds := []string{"nil", "bool", "int64", "float64", "string", "slice", "map", "int32", "uint8", "float32",
-		"slice", "map", "ptr", "struct", "ptr", "chan", "func", "slice", "slice"}
+		"slice", "map", "ptr", "struct", "ptr", "chan", "func", "slice", "slice",
+		"int64", "float64", "string", "bool", "uint16", "slice", "map", "array", "struct"}
 	i := zz.Choose(len(vals))
 	zz.Assert(typeOf(vals[i]) == types[i], "C19.typeOf")
 	zz.Assert(kindOf(vals[i]) == kinds[i], "C19.kindOf")
